@@ -6,7 +6,7 @@
 From Coq Require Import NArith List Bool.
 From LV Require Import lib.Bytes lib.Lex lib.SortedMap spec.KvSpec spec.KvOps spec.KvStackSpec
   model.PrefixRange model.Table model.Flushable model.KvStack
-  proofs.FlushableIter proofs.KvStackReads proofs.KvStackWrites proofs.KvStackViews proofs.KvStackRefine proofs.KvExamples proofs.KvLive model.FlushableHeap proofs.FlushableHeapProofs.
+  proofs.FlushableIter proofs.KvStackReads proofs.KvStackWrites proofs.KvStackViews proofs.KvStackRefine proofs.KvExamples model.FlushableHeap proofs.FlushableHeapProofs.
 Import ListNotations.
 Local Open Scope N_scope.
 
@@ -34,16 +34,6 @@ Proof. exact fit_next_spec. Qed.
 Theorem C22_collect_total : forall prefix n s, (fit_size s < n)%nat -> Inv prefix s ->
   fit_collect n prefix s = Some (spec_rest prefix s).
 Proof. exact fit_collect_spec. Qed.
-(* an iterator created at state s and drained later — after reads, snapshots, batch building, other
-   iterators and, over a live-safe stack (one tree-bearing layer above an engine), Flush and
-   DropNotFlushed — yields the (prefix,start)-filter of the view AT s *)
-Theorem C22_live_iterator : forall lsafe ideal r i h P S mid n,
-  wf_st (h_view h (r_store r)) -> wf_bytes (ob P) = true -> Forall (quiet lsafe i) mid ->
-  let r1 := fst (run_op lsafe ideal r (OLit i h P S)) in
-  let r2 := run_state lsafe ideal r1 mid in
-  snd (run_op lsafe ideal r2 (OLNext i n)) =
-    [BLive (Some (firstn n (kv_iterate (view (h_view h (r_store r))) (ob P) (ob S))))].
-Proof. exact live_iterator_stable. Qed.
 (* over any parent stack *)
 Theorem C22_iterate : forall o u P S, wf_st (Flu o u) -> wf_bytes (ob P) = true ->
   st_iter (Flu o u) P S = kv_iterate (merge_overlay o (view u)) (ob P) (ob S).
@@ -140,9 +130,6 @@ Example C22_ex_heap :
            (snd (get_snapshot 0 H)) [98] = Some [2] /\
   store_get 0 (hrun 0 (fst (get_snapshot 0 H)) [HPut [98] [3]; HFlush; HDel [97]; HDrop; HParentDel [98]]) [98] = None.
 Proof. split; vm_compute; reflexivity. Qed.
-Example C22_ex_quiet : quiet true 0 (OFlush 0) /\ quiet true 0 (ODrop 0) /\ quiet true 0 (OSnap h0) /\
-  ~ quiet true 0 (OPut h0 [] []) /\ ~ quiet false 0 (OFlush 0).
-Proof. exact quiet_flush_drop. Qed.
 Example C22_ex_R :
   R (Flu [([0], None); ([97], Some [1])] (Mem [])) (SFlu [WPut [97] [5]; WDel [0]; WPut [97] [1]] (SEng [])).
 Proof. exact ex_R_flu. Qed.
@@ -155,7 +142,6 @@ Print Assumptions C22_has.
 Print Assumptions C22_merged_iterator.
 Print Assumptions C22_next_step.
 Print Assumptions C22_collect_total.
-Print Assumptions C22_live_iterator.
 Print Assumptions C22_iterate.
 Print Assumptions C22_write.
 Print Assumptions C22_flush.
